@@ -1058,6 +1058,25 @@ CASES['dd.bdd.reorder!order'] = ('dd.bdd.reorder!order', lambda seed: Case(
     lambda e: dict(call='reorder', order=e['order'])))
 
 
+@case('dd.bdd._reorder_var')
+def c_reorder_var(seed):
+    def build(rnd):
+        env = _order_mgr(rnd)
+        env['var'] = rnd.choice(list(env['b'].vars)) if rnd.random() < .9 else 'zz'
+        env['b'].collect_garbage()
+        return env
+    return Case('dd.bdd._reorder_var', seed, build, lambda e: _dd()._reorder_var(e['b'], e['var'], e['b']._levels()),
+                lambda e: dict(bdd=None, var=NAMEZ[e['var']], levels=None), lambda e: dict(call='_reorder_var', var=e['var']))
+
+
+CASES['dd.bdd._apply_sifting'] = ('dd.bdd._apply_sifting', lambda seed: Case(
+    'dd.bdd._apply_sifting', seed, _order_mgr, lambda e: _dd()._apply_sifting(e['b']), lambda e: dict(bdd=None),
+    lambda e: dict(call='_apply_sifting')))
+CASES['dd.bdd.reorder!sifting'] = ('dd.bdd.reorder!sifting', lambda seed: Case(
+    'dd.bdd.reorder!sifting', seed, _order_mgr, lambda e: _dd().reorder(e['b']), lambda e: dict(bdd=None, order=None),
+    lambda e: dict(call='reorder')))
+
+
 @case('dd.bdd.reorder_to_pairs')
 def c_reorder_to_pairs(seed):
     def build(rnd):
